@@ -2,7 +2,7 @@
    Only statements here; proofs live in coq/proofs/ConnLimitsP.v and ConnLimitsRefuted.v. *)
 From AQ Require Import lib.Base model.RangeSet model.StreamRecv model.ConnLimits model.ConnLimitsSpec
   gen.C07Consts proofs.RangeSetP proofs.ConnLimitsP proofs.ConnLimitsAdv proofs.ConnLimitsUsed proofs.ConnLimitsSim
-  proofs.ConnLimitsDeliv proofs.ConnLimitsMsd.
+  proofs.ConnLimitsDeliv proofs.ConnLimitsMsd model.ConnLimitsCut proofs.ConnLimitsCutP.
 
 (* over_limit_closes, part 1: in EVERY state, a STREAM / RESET_STREAM / MAX_STREAM_DATA / STREAM_DATA_BLOCKED
    frame that would create a peer-initiated stream beyond the current MAX_STREAMS value is answered with
@@ -183,3 +183,24 @@ Theorem limit_checks_read_granted_value :
   CHECK_FIELD_COUNT = 0 /\ LOST_LIMIT_TOUCHES_ONLY_SENT = true.
 Proof. exact checks_read_granted. Qed.
 Print Assumptions limit_checks_read_granted_value.
+
+
+(* ---- write passes cut short by QuicPacketBuilderStop (model/ConnLimitsCut.v: builder budget as an input, as in C18) ----
+   over_advertised_limit_closes_refuted: in the tree under test the limit writers assign the raised value BEFORE
+   builder.start_frame() (RAISE_BEFORE_START_FRAME = true, probed from the source on every run and recorded in the evidence; in a
+   tree that assigns the value only after start_frame() returned the premise is false and these statements are vacuous), so a MAX_DATA /
+   MAX_STREAM_DATA / MAX_STREAMS frame refused for lack of congestion window leaves the raised value in force while nothing
+   was advertised: there are histories in which a STREAM frame BEYOND every limit the peer ever saw on the wire is accepted
+   (tolerated ... = true) -- the first sentence of C07 fails there.  Witnesses for the three kinds of limit:
+   cut_pass_tolerates_witnesses; replayed on the real QuicConnection (docs/C07.md, F-C07-4). *)
+Theorem over_advertised_limit_closes_refuted : RAISE_BEFORE_START_FRAME = true -> exists cl msd md ops,
+  0 <= msd /\ 0 <= md /\ tolerated (conn_init cl msd md 0) (peer_init msd md) ops = true.
+Proof. exact over_advertised_refuted. Qed.
+Print Assumptions over_advertised_limit_closes_refuted.
+
+Theorem cut_pass_tolerates_witnesses : RAISE_BEFORE_START_FRAME = true ->
+  tolerated (conn_init false 3000 2000 0) (peer_init 3000 2000) w_cut_data = true /\
+  tolerated (conn_init false 1000 4000 0) (peer_init 1000 4000) w_cut_stream = true /\
+  tolerated (conn_init false 1000 4000 0) (peer_init 1000 4000) w_cut_count = true.
+Proof. exact cut_pass_tolerates. Qed.
+Print Assumptions cut_pass_tolerates_witnesses.
